@@ -76,6 +76,10 @@ CLAIMED = {
              'elements (same terms), zeros elsewhere, documented length, throw only outside the documented range; sum, mean, rms, stddev, norm 1/2, dot, cumsum, abs2 and the complex variants as real-arithmetic identities; '
              'min / max / argmin / argmax / peak2peak on every comparison path; linspace affine with exact end points; complex/real+imag and conj round trips; angle at the axes / signed-zero special points.',
              note='NOT decided (stated as outside): every "libm value within a few ulp" clause (exp, log*, pow, tanh, expj, dB conversions, angle away from the special points) and inverse pairs through pow/log10 - transcendental accuracy at arbitrary arguments has no decision procedure in the tools present.'),
+ 'C19': dict(design='4/C19', text='PARTIAL. awgn (real and complex) with the input symbolic: the added noise is g_i*sigma for ONE sigma with sigma^2 * (#components) == mean|x|^2 * 10^(-snr/10) (polynomial identity, g_i = the unit normals of the seed); '
+             'rng(seed) from a havocked mt19937: every state word afterwards is a term over the symbolic 32-bit seed alone (all generators replay); replay of the 7 generator forms after interleaved draws for concrete seeds; randi with the raw 32-bit '
+             'engine outputs symbolic stays inside its inclusive bounds on every path of the real uniform_int_distribution (3 draws; single-value and negative ranges); snr / sinad / thd of c*x for symbolic c in (1e-3, 1e3): one feasible analysis path and a power ratio independent of c.',
+             note='NOT decided: the statistical calibration (distribution shape, 6-sigma tolerance) and the 0.1 dB / 1.5 dB accuracies of thd / sinad on specified tones (numeric accuracy of a concrete analysis).'),
 }
 ALL = [json.loads(l)['id'] for l in open(os.path.join(V, 'properties.jsonl'))]
 NA_REASON = {}
